@@ -16,7 +16,7 @@ RULE = ("random operation scripts (length <= 40) over a pool of live arrays with
         "(thorough: <= 5) for both managers; non-trivial = script contains a copy followed by a mutation of either side and a sort of an array with distinct sums; distinct on the script")
 ASSUMPTIONS = ["arrays handed to add_empty / remove / concatenate are used only through the returned array afterwards (the discipline stated in the property)",
                "combine is never called with the same array on both sides (no algorithm does)"]
-FLOORS = {"quick": {"distinct_nontrivial": 3000, "operations": 300000}, "thorough": {"distinct_nontrivial": 30000, "operations": 3000000}}
+FLOORS = {"quick": {"distinct_nontrivial": 3000, "operations": 300000}, "thorough": {"distinct_nontrivial": 15000, "operations": 1500000}}
 
 
 def plan(tier, seed):
